@@ -14,7 +14,9 @@ Legs:
                  attribute compared with the expanded name the GENERATOR intended (computed here from the
                  stylesheet tree by XSLT 1.0 7.1.1-7.1.3, no Coq model involved); excluded namespaces and
                  namespace-alias (stylesheet side must not appear) checked on the declarations seen.
-                 Additional oracle-only streams: namespace-alias, xsl:copy, xsl:copy-of, attribute sets.
+                 Additional oracle-only streams: namespace-alias, attribute sets, and xsl:copy / xsl:copy-of of
+                 nodes of generated SOURCE documents that re-bind prefixes and the default namespace at several
+                 depths (expected expanded names read off the source by the same expat reader).
 """
 import re, os
 import xml.parsers.expat
